@@ -8,7 +8,7 @@ bound for level-9 statements is carried by a **potential**: every popped `Event:
 (`ringPot`: occurrences of `id` in the ring of logger `j` × multiplicity of `sid` in `j`'s sink list, summed over the
 loggers); a replay converts ring occupancy into writes and — with the repaired callback — always clears the ring:
 
-  `bwcount s.log sid id + ringPot s sid id ≤ btBound s sid id`        (`InvR.bound`)
+  `bwcount s.log sid id + ringPot s sid id ≤ btBound s sid id`        (`InvRg.bound`)
 
 No uniqueness of ids is needed for the invariant itself; uniqueness is used once, at the end, to bound `btBound`.
 This file: the potential, its frame lemmas, and what one repaired replay does to it.
@@ -84,7 +84,7 @@ def btBound (s : BSt) (sid id : Nat) : Nat :=
 /-- stored statements sit in the ring of their own logger -/
 def RingLg (s : BSt) : Prop := ∀ i r, (s.lgOf i).bt = some r → ∀ x ∈ r.items, x.lg = i
 
-structure InvR (s : BSt) : Prop where
+structure InvRg (s : BSt) : Prop where
   rc : s.cfg.replayCatchesPerEvent = true
   ring : RingLg s
   bound : ∀ sid id, bwcount s.log sid id + ringPot s sid id ≤ btBound s sid id
@@ -116,13 +116,13 @@ theorem ringPot_congr {s s' : BSt} (sid id : Nat) (hlen : s'.lgs.length = s.lgs.
   intro j hj
   simp only [lgCnt, (h j hj).1, (h j hj).2]
 
-/-- `InvR` survives a change that adds no `write`, keeps the pop history, keeps the old loggers' rings and sink lists and
+/-- `InvRg` survives a change that adds no `write`, keeps the pop history, keeps the old loggers' rings and sink lists and
     creates loggers without a ring -/
-theorem InvR.mono {s s' : BSt} (h : InvR s) (hcfg : s'.cfg = s.cfg)
+theorem InvRg.mono {s s' : BSt} (h : InvRg s) (hcfg : s'.cfg = s.cfg)
     (hlog : ∃ evs, s'.log = evs ++ s.log ∧ ∀ e ∈ evs, isWriteEv e = false) (hpop : s'.popLog = s.popLog)
     (hle : s.lgs.length ≤ s'.lgs.length)
     (hold : ∀ i, i < s.lgs.length → (s'.lgOf i).sinks = (s.lgOf i).sinks ∧ (s'.lgOf i).bt = (s.lgOf i).bt)
-    (hnew : ∀ i, s.lgs.length ≤ i → (s'.lgOf i).bt = none) : InvR s' := by
+    (hnew : ∀ i, s.lgs.length ≤ i → (s'.lgOf i).bt = none) : InvRg s' := by
   refine ⟨by rw [hcfg]; exact h.rc, ?_, fun sid id => ?_⟩
   · intro i r hr
     by_cases hi : i < s.lgs.length
@@ -148,21 +148,21 @@ theorem InvR.mono {s s' : BSt} (h : InvR s) (hcfg : s'.cfg = s.cfg)
       show (default : Lg).sinks.count sid ≤ _
       exact Nat.zero_le _
 
-theorem InvR.frame {s s' : BSt} (h : InvR s) (f : Frame s s') : InvR s' :=
+theorem InvRg.frame {s s' : BSt} (h : InvRg s) (f : Frame s s') : InvRg s' :=
   h.mono f.cfg f.log f.popLog (by rw [f.lgsLen]; exact Nat.le_refl _)
     (fun i _ => ⟨(f.lgs i).2.1, (f.lgs i).2.2⟩)
     (fun i hi => by rw [(f.lgs i).2.2, lgOf_default_of_ge s i hi]; rfl)
 
-/-- a change of fields `InvR` does not read -/
-theorem InvR.of_eq {s s' : BSt} (h : InvR s) (h0 : s'.cfg = s.cfg) (h1 : s'.log = s.log) (h2 : s'.popLog = s.popLog)
-    (h3 : s'.lgs = s.lgs) : InvR s' :=
+/-- a change of fields `InvRg` does not read -/
+theorem InvRg.of_eq {s s' : BSt} (h : InvRg s) (h0 : s'.cfg = s.cfg) (h1 : s'.log = s.log) (h2 : s'.popLog = s.popLog)
+    (h3 : s'.lgs = s.lgs) : InvRg s' :=
   h.mono h0 ⟨[], by simpa using h1, by simp⟩ h2 (by rw [h3]; exact Nat.le_refl _)
     (fun i _ => by simp [BSt.lgOf, h3])
     (fun i hi => by
       have : s'.lgOf i = s.lgOf i := by simp [BSt.lgOf, h3]
       rw [this, lgOf_default_of_ge s i hi]; rfl)
 
-theorem InvR.ffr {s s' : BSt} (h : InvR s) (f : FFrame s s') : InvR s' :=
+theorem InvRg.ffr {s s' : BSt} (h : InvRg s) (f : FFrame s s') : InvRg s' :=
   h.mono f.cfg f.log f.popLog f.lgsLe (fun i hi => ⟨(f.lgsOld i hi).2.1, (f.lgsOld i hi).2.2⟩) f.lgsNew
 
 /-! ### one repaired replay -/
